@@ -304,7 +304,13 @@ func ruleVersionBump(c *Ctx) {
 			if _, isAlloc := st.Addr.(*ssa.FieldAddr).X.(*ssa.Alloc); isAlloc {
 				continue // constructor literal
 			}
-			fns[st.Parent()] = true
+			// a store in a helper that is new since the reference tree (`setResource` split off processGetResponse) is
+			// a store of the function it was split off: analysed from there, with the helper walked through
+			if owner := p.ByNm[p.refOwnerName(st.Parent())]; owner != nil {
+				fns[owner] = true
+			} else {
+				fns[st.Parent()] = true
+			}
 		}
 	}
 	var names []string
